@@ -255,11 +255,18 @@ theorem registration_policy (size : Nat) (ops : List Op) (hwf : ∀ o ∈ ops, o
   obtain ⟨nn, hnn, hlast, hnz, hl, _, h0, hh, hw⟩ := slot_of_lt size _ _ (slotIdx size n) hr (Nat.mod_lt _ hsz)
   have hnn : (run size ops).1[slotIdx (run size ops).1.length n]? = some nn := by rw [hr.1]; exact hnn
   have hfit : n.length + 1 ≤ nn.nonce.length := by simp only [nonceBufSize, maxNonceLen] at *; omega
+  have hstep : ∀ b, isSlotAvailable nn ts n = some b →
+      (step (run size ops).1 (.add ts n)).2 = (if b then .added else .refused) := by
+    intro b hb
+    have := add_result _ ts n nn b hnn hfit hb
+    show Out.ofAdd (addNonce (run size ops).1 ts n).2 = _
+    rw [this]
+    cases b <;> rfl
   refine ⟨?_, ?_, ?_, ?_⟩
   · intro hla
-    simp [step, add_result _ ts n nn true hnn hfit (avail_empty nn ts n (h0 hla)), Out.ofAdd]
+    exact hstep true (avail_empty nn ts n (h0 hla))
   · intro hla
-    simp [step, add_result _ ts n nn false hnn hfit (avail_same nn ts n (hh n hla).1 hn hne), Out.ofAdd]
+    exact hstep false (avail_same nn ts n (hh n hla).1 hn hne)
   · intro m hla hp hus
     obtain ⟨k1, k2, k3⟩ := hh m hla
     have hdiff : nn.nonce.take n.length ≠ n := by
@@ -269,25 +276,25 @@ theorem registration_policy (size : Nat) (ops : List Op) (hwf : ∀ o ∈ ops, o
       cases hu : usedSince size (run size ops).2 (slotIdx size n) with
       | nil => exact (hus hu).elim
       | cons u us =>
-        have hu0 : u ≠ 0 := hnz u (by rw [hu]; simp)
-        have := hw.2.2.1 u (Or.inr (by rw [hu]; simp))
-        simp only at this
+        have hu0 : u ≠ 0 := hnz u (by rw [hu]; exact List.mem_cons_self)
+        have hle : u ≤ nn.nc := hw.2.2.1 u (Or.inr (by rw [hu]; exact List.mem_cons_self))
         omega
-    simp [step, add_result _ ts n nn true hnn hfit (avail_used nn ts m n k1 k2 k3 hl hlen hdiff hnc), Out.ofAdd]
+    exact hstep true (avail_used nn ts m n k1 k2 k3 hl hlen hdiff hnc)
   · intro hm tm hla hstd hp hus
     obtain ⟨k1, k2, k3⟩ := hh _ hla
     have hdiff : nn.nonce.take n.length ≠ n := by
       obtain ⟨rest, hrest⟩ := k1
       rw [hrest]; exact take_ne_of_not_prefix _ rest n hn hp
     have hnc : nn.nc = 0 := by
-      have := hw.2.1
-      simp only [hus, List.not_mem_nil, or_false] at this
-      exact this
-    have := add_result _ ts n nn _ hnn hfit (avail_unused nn ts hm tm n k1 k2 hstd hl hlast hlen hdiff hnc)
-    simp only [step, this]
+      have h1 : nn.nc = 0 ∨ nn.nc ∈ usedSince size (run size ops).2 (slotIdx size n) := hw.2.1
+      rw [hus] at h1
+      rcases h1 with h1 | h1
+      · exact h1
+      · cases h1
+    rw [hstep _ (avail_unused nn ts hm tm n k1 k2 hstd hl hlast hlen hdiff hnc)]
     by_cases hd : reuseTimeout * 1000 < trim (sub64 ts (trim tm))
-    · simp [hd, Out.ofAdd]
-    · simp [hd, Out.ofAdd]
+    · rw [if_pos hd, decide_eq_true hd]; rfl
+    · rw [if_neg hd, decide_eq_false hd]; rfl
 
 /-! ## the embedded time stamp, memory safety -/
 
@@ -305,5 +312,86 @@ theorem issued_nonce_timestamp (hashHex rest : Bytes) (ts : Nat)
 theorem no_fault (size : Nat) (ops : List Op) (hwf : ∀ o ∈ ops, o.Wf) :
     ∀ e ∈ (run size ops).2, e.out ≠ .fault :=
   runH_no_fault size ops _ _ (tblRel_init size) (by intro e he; cases he) hwf
+
+
+/-! ## non-vacuity: concrete runs satisfying the hypotheses above
+    (`decide +kernel` here evaluates closed terms; these are instances, not the proofs) -/
+
+def exH (b : UInt8) : Bytes := List.replicate 32 b
+/-- a 44-character nonce made at t = 1000 -/
+def exA : Bytes := mkNonce (exH 97) 1000
+/-- another one made at t = 1005 -/
+def exB : Bytes := mkNonce (exH 98) 1005
+/-- register A, use count 1, then jump forward by `j` -/
+def exOps (j : Nat) : List Op := [.add 1000 exA, .check exA 1000 1, .check exA 1000 (1 + j)]
+/-- register A, use it, B evicts it (1-slot table) -/
+def exEvict : List Op := [.add 1000 exA, .check exA 1000 1, .add 1005 exB]
+
+theorem exA_ok : NoNul exA ∧ exA ≠ [] ∧ exA.length ≤ maxNonceLen :=
+  ⟨by show ∀ b ∈ exA, b ≠ 0; decide, by decide, by decide⟩
+theorem exB_ok : NoNul exB ∧ exB ≠ [] ∧ exB.length ≤ maxNonceLen :=
+  ⟨by show ∀ b ∈ exB, b ≠ 0; decide, by decide, by decide⟩
+
+theorem exOps_wf (j : Nat) : ∀ o ∈ exOps j, o.Wf := by
+  intro o ho
+  simp only [exOps, List.mem_cons, List.not_mem_nil, or_false] at ho
+  rcases ho with rfl | rfl | rfl
+  · exact exA_ok
+  · trivial
+  · trivial
+
+theorem exEvict_wf : ∀ o ∈ exEvict, o.Wf := by
+  intro o ho
+  simp only [exEvict, List.mem_cons, List.not_mem_nil, or_false] at ho
+  rcases ho with rfl | rfl | rfl
+  · exact exA_ok
+  · trivial
+  · exact exB_ok
+
+/-- jumps of exactly 63, 64 and 65: count 2 is still inside the window and is accepted -/
+example : (step (run 1 (exOps 63)).1 (.check exA 1000 2)).2 = .ok :=
+  window_complete 1 (exOps 63) (exOps_wf 63) exA 1000 2 (by decide +kernel) (by decide) (by decide)
+    (by decide +kernel) (by decide +kernel)
+example : (step (run 1 (exOps 64)).1 (.check exA 1000 2)).2 = .ok :=
+  window_complete 1 (exOps 64) (exOps_wf 64) exA 1000 2 (by decide +kernel) (by decide) (by decide)
+    (by decide +kernel) (by decide +kernel)
+example : (step (run 1 (exOps 65)).1 (.check exA 1000 2)).2 = .ok :=
+  window_complete 1 (exOps 65) (exOps_wf 65) exA 1000 2 (by decide +kernel) (by decide) (by decide)
+    (by decide +kernel) (by decide +kernel)
+/-- … through the whole vetting sequence too (t = 1000, now = 50 000, default timeout 90 s) -/
+example : (step (run 1 (exOps 65)).1 (.present 50000 0 0 exA.length exA 2)).2 = .ok :=
+  window_complete_present 1 (exOps 65) (exOps_wf 65) 50000 0 0 exA 1000 2 (by decide +kernel) (by decide)
+    (by decide) (by decide +kernel) (by decide +kernel) (by decide) (by decide +kernel) (by decide +kernel)
+/-- after a jump of 66 the window-completeness hypothesis fails for count 2 (68 > 2 + 64) and the code
+    refuses it; a replay of count 1 is refused (sample evaluation) -/
+example : (step (run 1 (exOps 66)).1 (.check exA 1000 2)).2 = .stale := by decide +kernel
+example : (step (run 1 (exOps 5)).1 (.check exA 1000 1)).2 = .stale := by decide +kernel
+/-- the run really accepts: two acceptances, one registration, and `at_most_once` is tight -/
+example : okCount (run 1 (exOps 5)).2 exA 1 = 1 ∧ addCount (run 1 (exOps 5)).2 exA = 1 := by decide +kernel
+/-- eviction: after B took the slot, A is not accepted … -/
+example : (step (run 1 exEvict).1 (.check exA 1000 2)).2 ≠ .ok :=
+  ok_only_if_registered_last 1 exEvict exEvict_wf (.check exA 1000 2) rfl exA_ok.1 exA_ok.2.1 (by decide +kernel)
+/-- … and is classified by the time stamps (here: A is 5 ms older than B → `wrong` as the code stands) -/
+example : step (run 1 exEvict).1 (.check exA 1000 2) = ((run 1 exEvict).1, .wrong) := by
+  have := evicted_classification 1 exEvict exEvict_wf (exH 98) 1005 exA 1000 2 (by decide +kernel)
+    (by decide) (by decide) (by decide) (by decide)
+  rw [this]; decide +kernel
+/-- registration policy, fourth clause: A unused and 5 ms old keeps its slot, 30 001 ms later it loses it -/
+example : (step (run 1 [.add 1000 exA]).1 (.add 1005 exB)).2 = .refused := by
+  have hwf : ∀ o ∈ [Op.add 1000 exA], o.Wf := by intro o ho; simp at ho; subst ho; exact exA_ok
+  have := (registration_policy 1 [.add 1000 exA] hwf 1005 exB (by decide) exB_ok.1 exB_ok.2.1 exB_ok.2.2).2.2.2
+    (exH 97) 1000 (by decide +kernel) (by decide) (by decide +kernel) (by decide +kernel)
+  rw [this]; decide +kernel
+example : (step (run 1 [.add 1000 exA]).1 (.add 31001 (mkNonce (exH 98) 31001))).2 = .added := by decide +kernel
+/-- the refinement relation on a concrete reachable table with a used window -/
+example : TblRel 2 (run 2 (exOps 64)).1 (run 2 (exOps 64)).2 := run_refines 2 (exOps 64) (exOps_wf 64)
+example : (run 2 (exOps 64)).1.map (fun s => (s.nc, s.nmask.toNat)) ≠ [(0, 0), (0, 0)] := by decide +kernel
+/-- no fault on a concrete run that exercises every operation kind -/
+example : ∀ e ∈ (run 1 (exEvict ++ [.present 50000 0 0 exA.length exA 2])).2, e.out ≠ .fault :=
+  no_fault 1 _ (by
+    intro o ho
+    rcases List.mem_append.mp ho with h | h
+    · exact exEvict_wf o h
+    · simp at h; subst h; exact Or.inl (by decide))
 
 end Mhd.C13
